@@ -42,6 +42,7 @@ fn finish(mut w: World, trace: Trace) -> RunOutcome {
     seam::end_run();
     w.stats.faults_fired = tok::faults_fired();
     w.stats.trace_ticks = tok::ticks();
+    w.stats.addr_reuses = seam::recycled();
     RunOutcome {
         trace,
         viol: w.viol.take(),
@@ -56,8 +57,8 @@ fn finish(mut w: World, trace: Trace) -> RunOutcome {
     }
 }
 
-fn begin(quarantine: bool, ecfg: &ExecCfg) -> World {
-    seam::begin_run(quarantine);
+fn begin(quarantine: bool, recycle: bool, ecfg: &ExecCfg) -> World {
+    seam::begin_run(quarantine, recycle);
     tok::begin_run();
     tok::set_quiet(true);
     World::new(ecfg.clone())
@@ -68,13 +69,13 @@ thread_local! {
     pub static STREAM_TO: std::cell::RefCell<Option<std::path::PathBuf>> = const { std::cell::RefCell::new(None) };
 }
 
-fn open_stream(w: &mut World, quarantine: bool) {
+fn open_stream(w: &mut World, quarantine: bool, recycle: bool) {
     let path = STREAM_TO.with(|s| s.borrow().clone());
     if let Some(p) = path {
         let _p = seam::pause();
         if let Ok(f) = std::fs::File::create(&p) {
             w.stream = Some(f);
-            w.stream_line('X', format!("{{\"quarantine\": {quarantine}}}"));
+            w.stream_line('X', format!("{{\"quarantine\": {quarantine}, \"recycle\": {recycle}}}"));
         }
     }
 }
@@ -84,13 +85,15 @@ pub fn trace_from_stream(text: &str) -> Option<Trace> {
     let mut events: Vec<Event> = vec![];
     let mut suffix = Suffix::None;
     let mut quarantine = true;
+    let mut recycle = false;
     for line in text.lines() {
         let (tag, rest) = line.split_at(line.len().min(2));
         match tag {
             "X " => {
                 events.clear();
                 suffix = Suffix::None;
-                quarantine = !rest.contains("false");
+                quarantine = !rest.contains("\"quarantine\": false");
+                recycle = rest.contains("\"recycle\": true");
             }
             "E " => {
                 if let Ok(e) = serde_json::from_str::<Event>(rest) {
@@ -113,13 +116,13 @@ pub fn trace_from_stream(text: &str) -> Option<Trace> {
             _ => {}
         }
     }
-    if events.is_empty() { None } else { Some(Trace { events, suffix, quarantine }) }
+    if events.is_empty() { None } else { Some(Trace { events, suffix, quarantine, recycle }) }
 }
 
 /// Generate and execute a run from one seed.
 pub fn run_generated(seed: u64, gcfg: &GenCfg, ecfg: &ExecCfg, suffix: Suffix) -> RunOutcome {
-    let mut w = begin(gcfg.quarantine, ecfg);
-    open_stream(&mut w, gcfg.quarantine);
+    let mut w = begin(gcfg.quarantine, gcfg.recycle, ecfg);
+    open_stream(&mut w, gcfg.quarantine, gcfg.recycle);
     let mut g = Gen::new(seed, gcfg.clone());
     let mut events: Vec<Event> = vec![];
     let mut ev = g.first_event(&w);
@@ -136,13 +139,13 @@ pub fn run_generated(seed: u64, gcfg: &GenCfg, ecfg: &ExecCfg, suffix: Suffix) -
     if w.ok() {
         w.run_suffix(suffix);
     }
-    finish(w, Trace { events, suffix, quarantine: gcfg.quarantine })
+    finish(w, Trace { events, suffix, quarantine: gcfg.quarantine, recycle: gcfg.recycle })
 }
 
 /// Execute a recorded trace: no PRNG anywhere.
 pub fn run_replay(trace: &Trace, ecfg: &ExecCfg) -> RunOutcome {
-    let mut w = begin(trace.quarantine, ecfg);
-    open_stream(&mut w, trace.quarantine);
+    let mut w = begin(trace.quarantine, trace.recycle, ecfg);
+    open_stream(&mut w, trace.quarantine, trace.recycle);
     let mut events = trace.events.clone();
     for ev in events.iter_mut() {
         if !w.ok() {
@@ -153,7 +156,7 @@ pub fn run_replay(trace: &Trace, ecfg: &ExecCfg) -> RunOutcome {
     if w.ok() {
         w.run_suffix(trace.suffix);
     }
-    finish(w, Trace { events, suffix: trace.suffix, quarantine: trace.quarantine })
+    finish(w, Trace { events, suffix: trace.suffix, quarantine: trace.quarantine, recycle: trace.recycle })
 }
 
 /// Merge of per-run statistics over a batch.
@@ -189,6 +192,7 @@ impl BatchStats {
             ("trace_faults_fired", s.faults_fired),
             ("callback_panics", s.callback_panics),
             ("destructor_panics_fired", s.drop_faults),
+            ("address_reuses_forced", s.addr_reuses),
             ("ctor_failures", s.ctor_failures),
             ("arena_drops", s.arena_drops),
             ("marked_arenas", s.marked_arenas),
